@@ -441,13 +441,14 @@ static void* worker(void* arg) {
     {
         XalanTransformer xf;   // own transformer, default manager (constructed and destroyed between Start and Done)
         for (int it = 0; it < g_iters; ++it) {
-            std::ostringstream os;
+            std::ostringstream os, ws;
+            xf.setWarningStream(&ws);      // what this transformation reports (xsl:message, warnings) is part of its outcome
             rc = -99; err.clear();
             try {
                 rc = xf.transform(*g_in.src, g_in.ss, XSLTResultTarget(os));
                 if (rc != 0) err = xf.getLastError();
             } catch (...) { rc = -98; err = "exception escaped XalanTransformer::transform"; }
-            out = os.str();
+            out = os.str() + "\n--reported--\n" + ws.str();
             if (it + 1 < g_iters) {
                 done();
                 Rec* s = newRec();
@@ -480,9 +481,10 @@ static bool sequentialReference(const std::string& kind, const char* xsl, const 
                 xercesc::MemoryManager& mm = *xercesc::XMLPlatformUtils::fgMemoryManager;
                 if (!buildInputs(xf, mm, kind, xsl, xml, in, err, nullptr)) msg = "{\"e\":\"Seq\",\"rc\":-1,\"outHash\":\"build-failed\",\"len\":0,\"err\":" + xv::jstr(err) + "}";
                 else {
-                    std::ostringstream os;
+                    std::ostringstream os, ws;
+                    xf.setWarningStream(&ws);
                     int rc = xf.transform(*in.src, in.ss, XSLTResultTarget(os));
-                    std::string out = os.str();
+                    std::string out = os.str() + "\n--reported--\n" + ws.str();
                     msg = "{\"e\":\"Seq\",\"rc\":" + std::to_string(rc) + ",\"outHash\":\"" + hex(fnv(out)) + "\",\"len\":" + std::to_string(out.size());
                     if (rc != 0) msg += ",\"err\":" + xv::jstr(xf.getLastError());
                     const char* dump = getenv("XV_C07_DUMP");
